@@ -164,7 +164,7 @@ func report(prop, tier string, seed int, verif, repo string, cs *ContractSet, l 
 		"Go semantics: amd64 (int = 64 bit), no data races, lengths <= 2^48; append modelled with a fresh backing array",
 	}
 	tb = append(tb, sortedKeysB(trusted)...)
-	var assumptions []string
+	assumptions := []string{"preconditions (requires) of functions under contract are checked at call sites that are themselves under contract and assumed at all other call sites"}
 	assumptions = append(assumptions, sortedKeysB(unmodelled)...)
 	if pm := loadPropMeta(verif, prop); pm != nil {
 		assumptions = append(assumptions, pm.Assumptions...)
